@@ -28,6 +28,21 @@ CLAIMS = {
              'within the stated word vocabulary and member counts; inconclusive partitions are listed in the evidence.',
         design_ref='DESIGN.md section 4, C13',
         note=CH_NOTE + ' Double constants and identifiers outside the word vocabulary are outside the claim.'),
+    'C20': dict(
+        engine='CH',
+        technique='symbolic execution of giscanner.xmlwriter (and the stdlib escape/quoteattr it calls) with '
+                  'CrossHair/z3; expat used as reference parser in concrete validation and in the element-stack oracle',
+        category='model_checking',
+        text='(a) for every text string of <=3 (quick) / <=4 (thorough) code points and every attribute value of '
+             '<=2 / <=3 code points, build_xml_tag output is well-formed CharData/AttValue and decodes to the input; '
+             '(b) for 0-4 attributes with None or values of ANY length (length an unbounded symbolic integer, content '
+             'opaque behind injective quoteattr/escape stubs) the serialisation is exactly name, attributes in order, '
+             'separators being whitespace only, None omitted; (c) every sequence of <=5/6 writer operations including '
+             'exceptions (Exception and BaseException) raised inside tagcontext gives a document expat parses to the '
+             'expected tree with the stack and indentation restored. CrossHair "Confirmed over all paths" per partition.',
+        design_ref='DESIGN.md section 4, C20',
+        note=CH_NOTE + ' Names/comment text are assumed XML-representable (not escaped by the writer, not required '
+             'by the property); longer strings than the bounds in (a) are outside the claim.'),
 }
 
 NOT_APPLICABLE = {
